@@ -82,10 +82,15 @@ class Interp:
             return Not
         if k == "DivMod":
             return _DivModDef(ref[1])
-        if k == "ext":
-            return hx.ext_op(ref[1])
-        if k == "custom":
-            return hx.custom_op(ref[1])
+        if k in ("ext", "custom"):
+            # (in programs that share op objects, one object per operation name serves every node that uses it, the
+            # way module-level singletons such as hugr.std.logic.Not are used)
+            if self.share_partial:
+                key = (k, ref[1])
+                if key not in self._shared_ops:
+                    self._shared_ops[key] = hx.ext_op(ref[1]) if k == "ext" else hx.custom_op(ref[1])
+                return self._shared_ops[key]
+            return hx.ext_op(ref[1]) if k == "ext" else hx.custom_op(ref[1])
         if k == "CallIndirect":
             return ops.CallIndirect()
         raise AssertionError(ref)
